@@ -213,6 +213,26 @@ def judge_col(pres, s1, s2, req, o):
     return problems
 
 
+def judge_col_probe(sh, entry, d):
+    """create_or_load_database applied twice to a directory shape (harness c16.probe): creates exactly when no
+    library exists (the library's own notion: neither m.db nor Database2/m.db is there); an existing library —
+    whatever its state — is never written over and never reported as created."""
+    out = []
+    present = G.library_present(sh)
+    created = d["a1"].startswith("created")
+    if present and created:
+        out.append(("created-over-existing", "%s reports created on a directory with %s" % (entry, G.shape_text(sh))))
+    if present and d["before"] != d["after"]:
+        out.append(("existing-modified", "%s changed a directory that holds a library (%s): [%s] -> [%s]" % (
+            entry, G.shape_text(sh), d["l0"][:160], d["l1"][:200])))
+    if not present and not created and not d["a1"].startswith("throw"):
+        out.append(("not-created", "no library exists (%s), %s answered %s" % (G.shape_text(sh), entry, d["a1"][:60])))
+    if created and not d["a2"].startswith("loaded"):
+        out.append(("created-not-loadable", "%s created a library on a directory with %s, the second call answers %s" % (
+            entry, G.shape_text(sh), d["a2"][:60])))
+    return out
+
+
 def model_col(pres, s1, s2, req):
     ex = {"N0": "none", "N": "none", "L": s1, "D": s2}.get(pres)
     return None if ex is None else "c10.col %s %s" % (ex, req)
@@ -462,7 +482,18 @@ def replay(ctx, hdr, body):
     text, ok = [], True
     for l, o in zip(script, outs):
         text.append("%s\n   -> %s" % (l[:160], o[:300]))
-    if script and script[0].startswith("c10.dir"):
+    if script and script[0].startswith("c16.probe "):
+        for l, o in zip(script, outs):
+            _, sh, en = l.split(" ")[:3]
+            d = G.parse_probe(o)
+            if d is None:
+                ok = False
+                text.append("PROBLEM: the probe did not answer: %s" % o[:100])
+            else:
+                for tag, t in judge_col_probe(sh, en, d):
+                    ok = False
+                    text.append("PROBLEM %s: %s" % (tag, t))
+    elif script and script[0].startswith("c10.dir"):
         _, pres, s1, s2 = script[0].split(" ")
         req = script[3].split(" ")[1]
         for tag, t in judge_col(pres, s1, s2, req, outs):
